@@ -642,7 +642,7 @@ def _prime_system(g):
     return RDSystem(net, g, state=[float(p) for p in primes(n)])
 
 
-def _observe(g, do_pykin, out):
+def _observe(g, do_pykin, out, do_engine=True):
     """What every geometry observer says about grid object g (exceptions recorded per observer)."""
     n = g.size()
     obs = {}
@@ -667,7 +667,8 @@ def _observe(g, do_pykin, out):
         if nit != 1 or len(data) != 2 * n:
             raise RuntimeError("%d iterations, %d values" % (nit, len(data)))
         return [data[n + j] - data[j] for j in range(n)]
-    grab("engine-euler-grid", engine)
+    if do_engine:
+        grab("engine-euler-grid", engine)
     if do_pykin:
         out.ops += n
         grab("kinetics.compute_dstatedt",
@@ -732,7 +733,7 @@ def _first_diff(name, a, b):
     return "lengths %d / %d" % (len(a), len(b))
 
 
-def _judge(tag, g, w, h, d, allowed, do_pykin, out, where):
+def _judge(tag, g, w, h, d, allowed, do_pykin, out, where, do_engine=True):
     """g must report a setting within `allowed` (list of 3 sets) and every observer must follow the reported one."""
     n = w * h * d
     out.ops += 1
@@ -751,7 +752,7 @@ def _judge(tag, g, w, h, d, allowed, do_pykin, out, where):
                     "get_boundary_conditions() = %r, axis %s should be %s (%s)" % (bc, a, " or ".join(sorted(allowed[k])), where))
             return None
     per = tuple(bc[a] == "periodical" for a in "xyz")
-    obs = _observe(g, do_pykin, out)
+    obs = _observe(g, do_pykin, out, do_engine)
     ref = _reference_obs(w, h, d, per, do_pykin)
     fresh = _fresh_obs(w, h, d, per, do_pykin)
     for name in OBSERVERS:
@@ -781,7 +782,8 @@ def _history(case, out):
         if every:
             where = "%dx%dx%d built with %s%s, all observers queried after every step" % (
                 w, h, d, _call_dict(case["init"]), "".join(", set_boundary_conditions(%r)" % (_call_dict(c),) for c in done))
-            per = _judge("history", g, w, h, d, allowed, bool(case.get("pykin")), out, where)
+            # (the engine runs on the deep copy RDScript makes, it cannot touch g: only judged at the end)
+            per = _judge("history", g, w, h, d, allowed, bool(case.get("pykin")), out, where, do_engine=False)
             if per is not None:
                 allowed = [{VAL[int(p)]} for p in per]      # the reported setting is now the known previous value
         out.ops += 1
@@ -897,10 +899,12 @@ def _spaces(tier):
     if tier == "thorough":
         h2 = [dict(shp(t), sub="history", ctor="full", init=i, calls=[c1, c2], observe=m,
                    pykin=(t == small[0] and min(c1) >= 0 and min(c2) >= 0))
-              for t in small for i in FULL8 for c1 in ALPHA27 for c2 in ALPHA27 for m in MODES]
+              for t in small for i in FULL8 for c1 in ALPHA27 for c2 in ALPHA27
+              for m in (MODES if t == small[0] else ("every",))]
         h2 += [dict(shp(t), sub="history", ctor="full", init=i, calls=[c1, c2], observe=m, pykin=False)
                for t in big for i in FULL8 for c1 in FULL8 for c2 in FULL8 for m in MODES]
-        name2 = "history2: (2 shapes x 8 initial settings x 27 x 27 calls + 2 larger shapes x 8 x 8 x 8 full-dict calls) x 2 observation modes"
+        name2 = ("history2: 1x2x3: 8 initial settings x 27 x 27 calls x 2 observation modes; 4x2x1: 8 x 27 x 27, observed "
+                 "after every step; 2x3x4 and 3x1x4: 8 x 8 x 8 full-dict calls x 2 modes")
     else:
         h2 = [dict(shp(t), sub="history", ctor="full", init=i, calls=[c1, c2], observe=m, pykin=False)
               for t in small[:1] for i in FULL8 for c1 in FULL8 for c2 in FULL8 for m in MODES]
